@@ -7,6 +7,41 @@ fn choice(b: bool) -> Choice {
     (b as u64).ct_nonzero()
 }
 
+/// the same truth value obtained through every public way of producing a `Choice` (the masked helpers must not depend on how a
+/// choice was derived: negations, comparisons, combinations)
+fn choice_mode(b: bool, mode: u32) -> Result<Choice, String> {
+    let t = 1u64.ct_nonzero();
+    let f = 0u64.ct_nonzero();
+    let x: u64 = 0x1234_5678_9abc_def0;
+    Ok(match mode {
+        0 => choice(b),
+        1 => ((!b) as u64).ct_zero(),
+        2 => choice(!b).negate(),
+        3 => choice(b).negate().negate(),
+        4 => x.ct_eq(if b { x } else { x ^ (1 << 63) }),
+        5 => x.ct_ne(if b { x ^ 1 } else { x }),
+        6 => u64::ct_lt(5, if b { 6 } else { 5 }),
+        7 => u64::ct_le(5, if b { 5 } else { 4 }),
+        8 => u64::ct_ge(5, if b { 5 } else { 6 }),
+        9 => u64::ct_gt(5, if b { 4 } else { 5 }),
+        10 => choice(b) & t,
+        11 => choice(b) | f,
+        12 => choice(!b) ^ t,
+        13 => (&[1u8, 2, 3]).ct_ne(if b { &[1u8, 2, 4] } else { &[1u8, 2, 3] }),
+        14 => (&[9u64, 7][..]).ct_eq(if b { &[9u64, 7][..] } else { &[9u64, 8][..] }),
+        15 => <&[u8; 2]>::ct_ge(&[0u8, 5], if b { &[0u8, 5] } else { &[0u8, 6] }),
+        16 => (choice(!b) | f).negate() & (t ^ f),
+        _ => return Err("bad-choice-mode".into()),
+    })
+}
+
+fn parse_choice(a: &str) -> Result<Choice, String> {
+    match a.find(':') {
+        None => Ok(choice(arg_u64(a)? != 0)),
+        Some(i) => choice_mode(arg_u64(&a[..i])? != 0, arg_u64(&a[i + 1..])? as u32),
+    }
+}
+
 fn bits(v: &[bool]) -> String {
     v.iter().map(|b| if *b { 'T' } else { 'F' }).collect()
 }
@@ -66,22 +101,22 @@ fn arr64_ops<const N: usize>(a: &[u64], b: &[u64]) -> Result<String, String> {
     ]))
 }
 
-fn swapset64<const N: usize>(op: &str, c: bool, a: &[u64], b: &[u64]) -> Result<String, String> {
+fn swapset64<const N: usize>(op: &str, c: Choice, a: &[u64], b: &[u64]) -> Result<String, String> {
     let mut a: [u64; N] = <[u64; N]>::try_from(a).map_err(|_| "bad-len")?;
     let mut b: [u64; N] = <[u64; N]>::try_from(b).map_err(|_| "bad-len")?;
     match op {
-        "swap" => verif::array64_maybe_swap_with(&mut a, &mut b, choice(c)),
-        "set" => verif::array64_maybe_set(&mut a, &b, choice(c)),
+        "swap" => verif::array64_maybe_swap_with(&mut a, &mut b, c),
+        "set" => verif::array64_maybe_set(&mut a, &b, c),
         _ => return Err("bad-op".into()),
     }
     Ok(format!("{}.{}", obs_bytes(&from_u64s(&a)), obs_bytes(&from_u64s(&b))))
 }
-fn swapset32<const N: usize>(op: &str, c: bool, a: &[i32], b: &[i32]) -> Result<String, String> {
+fn swapset32<const N: usize>(op: &str, c: Choice, a: &[i32], b: &[i32]) -> Result<String, String> {
     let mut a: [i32; N] = <[i32; N]>::try_from(a).map_err(|_| "bad-len")?;
     let mut b: [i32; N] = <[i32; N]>::try_from(b).map_err(|_| "bad-len")?;
     match op {
-        "swap" => verif::array32_maybe_swap_with(&mut a, &mut b, choice(c)),
-        "set" => verif::array32_maybe_set(&mut a, &b, choice(c)),
+        "swap" => verif::array32_maybe_swap_with(&mut a, &mut b, c),
+        "set" => verif::array32_maybe_set(&mut a, &b, c),
         _ => return Err("bad-op".into()),
     }
     Ok(format!("{}.{}", obs_bytes(&from_i32s(&a)), obs_bytes(&from_i32s(&b))))
@@ -210,17 +245,25 @@ pub fn dispatch(_m: &mut Machine, name: &str, args: &[&str]) -> Option<R> {
                 None => "N".to_string(),
             })
         })(),
-        // ct_swapset64 <swap|set> <0|1> <a> <b>   (8 bytes per limb, N in 1,4,5,10)
+        // ct_choice_views <0|1>:<mode>: is_true, is_false, into bool, CtOption(.., choice) of a choice derived in the given way
+        "ct_choice_views" => (|| {
+            need(args, 1)?;
+            let c = parse_choice(args[0])?;
+            let o: Option<u8> = CtOption::from((c, 7u8)).into_option();
+            let b: bool = c.into();
+            Ok(format!("{}{}{}{}", obs_bool(c.is_true()), obs_bool(c.is_false()), obs_bool(b), obs_bool(o.is_some())))
+        })(),
+        // ct_swapset64 <swap|set> <0|1>[:<mode>] <a> <b>   (8 bytes per limb, N in 1,4,5,10)
         "ct_swapset64" => (|| {
             need(args, 4)?;
-            let c = arg_u64(args[1])? != 0;
+            let c = parse_choice(args[1])?;
             let a = to_u64s(&arg_bytes(args[2])?)?;
             let b = to_u64s(&arg_bytes(args[3])?)?;
             n_dispatch!(a.len(), NN => swapset64::<NN>(args[0], c, &a, &b); 1,4,5,10)
         })(),
         "ct_swapset32" => (|| {
             need(args, 4)?;
-            let c = arg_u64(args[1])? != 0;
+            let c = parse_choice(args[1])?;
             let a = to_i32s(&arg_bytes(args[2])?)?;
             let b = to_i32s(&arg_bytes(args[3])?)?;
             n_dispatch!(a.len(), NN => swapset32::<NN>(args[0], c, &a, &b); 1,4,5,10)
